@@ -44,7 +44,78 @@ def import_habutax():
     if here != want:
         raise HarnessError(f'habutax imported from {here}, expected {want}')
     _habutax = habutax
+    import habutax.forms       # noqa  (pulls in every year's form modules)
+    import habutax.pdf_filler  # noqa
+    _snapshot_code_state()
     return habutax
+
+
+# ----------------------------------------------------------------------------------
+# what habutax's own modules and classes remember between calls
+# ----------------------------------------------------------------------------------
+# Module-level and class-level containers (dict / list / set) of habutax as they are right after import, before any
+# harness or solver code has run.  Every simulated case starts from this state and every reference computation is made in
+# it, so that (a) a case behaves in a worker that has run thousands of cases exactly as in the fresh process that replays
+# it, and (b) anything the code under test remembers from one call to the next (a look-up cache, a memo of verdicts) is
+# history that a case has to contain itself (an earlier return / an earlier solve in the same case) and that the reference
+# does not share.
+_CODE_STATE = None
+_SKIP_MODULES = ('habutax.forms',)          # the registry of years: the harness registers its generated year there itself
+
+
+def _snapshot_code_state():
+    global _CODE_STATE
+    import types as _types
+    snap = []
+    seen = set()
+
+    def take(v):
+        if isinstance(v, (dict, list, set)) and id(v) not in seen:
+            seen.add(id(v))
+            snap.append((v, type(v)(v)))
+
+    for name in sorted(sys.modules):
+        if not (name == 'habutax' or name.startswith('habutax.')) or name in _SKIP_MODULES:
+            continue
+        mod = sys.modules[name]
+        if not isinstance(mod, _types.ModuleType):
+            continue
+        for k, v in list(vars(mod).items()):
+            if k.startswith('__'):
+                continue
+            take(v)
+            if isinstance(v, type) and getattr(v, '__module__', None) == name:
+                for k2, v2 in list(vars(v).items()):
+                    if not k2.startswith('__'):
+                        take(v2)
+    _CODE_STATE = snap
+
+
+def reset_code_state():
+    """put habutax's module- and class-level containers back to their import-time content; containers that appeared later
+    (a cache a changed tree creates lazily with setattr) are not known here.  -> number of containers that had changed"""
+    if _CODE_STATE is None:
+        return 0
+    n = 0
+    for obj, saved in _CODE_STATE:
+        if obj != saved:
+            n += 1
+            if isinstance(obj, list):
+                obj[:] = saved
+            else:
+                obj.clear()
+                obj.update(saved)
+    for name in list(sys.modules):
+        if name.startswith('habutax.') and name not in _SKIP_MODULES:
+            mod = sys.modules[name]
+            for v in list(vars(mod).values()):
+                cc = getattr(v, 'cache_clear', None)
+                if callable(cc) and not isinstance(v, type):
+                    try:
+                        cc()
+                    except Exception:
+                        pass
+    return n
 
 
 # ----------------------------------------------------------------------------------
@@ -284,6 +355,7 @@ def _worker(job):
             acc.merge(one)
             continue
         trace_begin()
+        reset_code_state()
         try:
             mod.run_one(engine, s, one, tier)
         except (RunTimeout, BudgetExceeded) as e:
